@@ -425,6 +425,8 @@ def build_case(r, kind, tier):
     args = ["mlr"] + case.pop("main_flags", []) + IFLAGS[fmt] + oflags + gen.chain_args(verbs) + names
     case.update({"args": args, "files": files, "faults": faults, "expect": expect, "cseed": r.randint(1, 1 << 40),
                  "nconf": 4 if tier == "quick" else 8, "sweep": True if tier != "quick" else r.chance(0.5)})
+    if kind == "pipe_early_exit":
+        case.update({"nconf": 2, "sweep": False})  # long inputs: few runs
     return case
 
 
